@@ -92,3 +92,15 @@ Theorem C07_source_getDecryptCert_is_the_model : forall parse_cert c now validat
   = PVal (match get_decrypt_cert parse_cert validate now c with Ok dc => Ok (Some dc) | Err e => Err e end).
 Proof. exact G_getDecryptCert_is_model. Qed.
 Print Assumptions C07_source_getDecryptCert_is_the_model.
+
+(* source tie: decryptAssertions as translated from /repo on this run hands back, on success, exactly the tree of the model
+   (every EncryptedAssertion that is a DIRECT child replaced by its decrypted plaintext appended as last child; one that is
+   not a direct child is an error), with the decryption oracle refined to unmarshal -> getDecryptCert -> the translated
+   DecryptBytes -> parseResponse *)
+From V Require Import Decrypt GenPreludeE GenDecrypt GenDecTree P_GenDecTree.
+Theorem C07_source_decryptAssertions_is_the_model :
+  forall parse rsa_oaep rsa_pkcs1 gcm_open cbc_decrypt sha1_hex (get_cert : res sp_cert) cfg now el t,
+    (exists u, G_decryptAssertions parse rsa_oaep rsa_pkcs1 gcm_open cbc_decrypt cfg now el (res_some get_cert) = PVal (t, Ok u))
+    <-> decrypt_assertions (chain parse rsa_oaep rsa_pkcs1 gcm_open cbc_decrypt sha1_hex get_cert) el = Ok t.
+Proof. exact G_decryptAssertions_ok_iff. Qed.
+Print Assumptions C07_source_decryptAssertions_is_the_model.
